@@ -389,6 +389,7 @@ def build_func(unit, f, grws):
                         break
             if d != 0 and not f.open_ok:
                 raise ExtractError('%s: statement range in %s is not bracket-balanced' % (S.path, f.name))
+            f.unclosed = d if d > 0 else 0
         else:
             # block = first '{' at or after match start
             ti = next(i for i, t in enumerate(S.toks) if t.start >= m.start() and t.text == '{' and t.kind == 'punct')
@@ -406,6 +407,10 @@ def build_func(unit, f, grws):
     assert raw in S.text  # identity of text (guard 6)
     where = '%s::%s' % (os.path.basename(S.path), f.outname)
     text = raw
+    if getattr(f, 'autoclose', False) and getattr(f, 'unclosed', 0) > 0:
+        # R-region: the blocks the range leaves open end where the range ends (what follows in them is outside the region)
+        text = text + ' ' + '}' * f.unclosed
+        unit.dropped.append('%s: R-region autoclose: %d block(s) opened inside the range are closed at its end; the statements after it in those blocks are not part of the region' % (where, f.unclosed))
     if getattr(f, 'mutation', None):
         rx, repl = f.mutation
         new, n = re.subn(rx, repl, text, count=1, flags=re.M)
@@ -584,6 +589,9 @@ def parse_template(path, mutation=None):
                             cur.whole = True
                         if r == 'open':
                             cur.open_ok = True   # the last line of the range opens a block that a rewrite rule closes or replaces
+                        if r == 'autoclose':
+                            cur.open_ok = True   # the range ends inside blocks it opened: they are closed where the range ends
+                            cur.autoclose = True
                         if r.startswith('to '):
                             cur.range_end = 'END' if r[3:].strip() == 'end' else parse_regex(r[3:])[0]
                 section = None
